@@ -6,8 +6,7 @@ The persisted package graph (`.bob-tree.sqlite3`) is a `Graph`: nodes are `0 .. 
 `children i` is the `OrderedDict` of node `i` (name, key, direct flag) in insertion order,
 the parent table is *computed* from the children (`parentFlag`: first edge wins, as in
 `__addParent`).  Python `set`s are lists; every function only depends on membership, except
-where the code itself fixes an order (`OrderedDict` order of children in
-`__findIntermediateNodes`, `sorted` in `__findResultNodes`).
+where the code itself fixes an order (`sorted` in `__findResultNodes`).
 
 String valued leaves of predicates (string literals after substitution, function calls) are
 pre-evaluated per node: `sval leaf node` (the substitution language itself is C17's model).
@@ -15,7 +14,8 @@ pre-evaluated per node: `sval leaf node` (the substitution language itself is C1
 
 Loops: the two worklist loops (`__evalAxisDescendant`, `__evalAxisAncestor`) are one function
 `worklist` with fuel `size + 2` (proved sufficient in Props/C18.lean); the two recursive walks
-(`traverse` in `__findIntermediateNodes`, `__findResultNodes`) carry a depth fuel `size + 1`.
+(`traverse` in `__findIntermediateNodes`, `__findResultNodes`) carry a depth fuel `size + 1`
+(proved sufficient on acyclic graphs).
 -/
 namespace PathSpec
 
@@ -269,23 +269,36 @@ def stepForward (g : Graph) (ax : Axis) (test : Str) (op : OptPred) (nodes : Lis
   let ns := nameFilter g test ns
   (op.restrict g ns, search, cq || op.isSome)
 
-/-- `traverse` of `__findIntermediateNodes`; state = (visited, intermediate); the fuel bounds
-the recursion depth -/
-def traverse (g : Graph) (new : List Node) (qi : Bool) :
-    Nat → Node → List Node → List Node × List Node → List Node × List Node
-  | 0, _, _, st => st
-  | fuel + 1, node, stack, (vis, inter) =>
-    if vis.contains node then (vis, inter)
-    else if new.contains node then (vis, union inter stack)
-    else
-      let stack' := stack ++ [node]
-      let st := (succs g qi node).foldl (fun st c => traverse g new qi fuel c stack' st) (vis, inter)
-      (node :: st.1, st.2)
+/-- state of `__findIntermediateNodes`: the dict `reaching` and the set `intermediate` -/
+structure TState where
+  reaching : List (Node × Bool)
+  inter : List Node
 
-/-- `__findIntermediateNodes(old, new, queryIndirect)`; `old` is iterated in list order -/
+/-- `reaching.get(node)` -/
+def memoGet (m : List (Node × Bool)) (k : Node) : Option Bool :=
+  (m.find? (fun e => e.1 == k)).map (·.2)
+
+/-- `traverse` of `__findIntermediateNodes`: is a `new` node reachable from `node`?  Memoised in
+`reaching`; every node with the answer `True` is put into `intermediate`.  The fuel bounds the
+recursion depth. -/
+def traverse (g : Graph) (new : List Node) (qi : Bool) : Nat → Node → TState → Bool × TState
+  | 0, _, st => (false, st)
+  | fuel + 1, node, st =>
+    match memoGet st.reaching node with
+    | some r => (r, st)
+    | none =>
+      let res := (succs g qi node).foldl
+        (fun (acc : Bool × TState) c =>
+          let r := traverse g new qi fuel c acc.2
+          (acc.1 || (r.1 || new.contains c), r.2))
+        (false, st)
+      (res.1, { reaching := (node, res.1) :: res.2.reaching,
+                inter := if res.1 then node :: res.2.inter else res.2.inter })
+
+/-- `__findIntermediateNodes(old, new, queryIndirect)` -/
 def findIntermediateNodes (g : Graph) (old new : List Node) (qi : Bool) : List Node :=
   if superset old new then []
-  else (old.foldl (fun st n => traverse g new qi (g.size + 1) n [] st) ([], [])).2
+  else (old.foldl (fun st n => (traverse g new qi (g.size + 1) n st).2) { reaching := [], inter := [] }).inter
 
 /-- the loop of `__findReachableSubset` with `todo` as a stack -/
 def reachLoop (g : Graph) (valid : List Node) : Nat → List Node → List Node → List Node
@@ -336,9 +349,7 @@ def forwardLoop (g : Graph) (mode : Mode) :
 def evalForward (g : Graph) (mode : Mode) (steps : Steps) : Except QErr (List Node × List Node) :=
   forwardLoop g mode steps [g.root] [g.root] false
 
-/-- the `(oldNodes, nodes, search)` triples of the loop, without the empty-mode exits
-(used by the driver to tell whether `__findIntermediateNodes` was asked with several start
-nodes, where the implementation iterates a Python `set`) -/
+/-- the `(oldNodes, nodes, search)` triples of the loop, without the empty-mode exits -/
 def forwardTrace (g : Graph) : Steps → List Node → List (List Node × List Node × Option Bool)
   | .nil, _ => []
   | .cons ax test op rest, old =>
